@@ -5,7 +5,7 @@ import GuppyVerif.Util.Sexp
     `(prog (bvars v…) (bleaves x…) (blocks b…) (entry e) (exit x <0|1 reachable>)
            (rows (b x…)…) (rowlin (b x…)…) (succ (b c…)…) (stmts (b stmt…)…))`
     stmt  = `(st (act…) (place…) <0|1 dropsLin>)`
-    act   = `(u place <0|1 borrow>)` | `(g place)` | `(d)`
+    act   = `(u place <0|1 borrow>)` | `(g place)` | `(d)` | `(m)`
     place = `(p <var|-> <0|1 isLeaf> (leaf <0|1 linear>)…)`
     reply: `ok (b x…)…` (place-level live_before of the inner blocks) | `err <class>` |
            `bad-wf` (not the shape `Prog.WF`) | `bad-kinds` (not well-kinded: `Prog.KindsOK`) -/
@@ -45,6 +45,7 @@ def act? : Sexp → Option Act
   | .list [.atom "u", p, .atom b] => (place? p).map fun q => .use q (b == "1")
   | .list [.atom "g", p] => (place? p).map .give
   | .list [.atom "d"] => some .dropAfter
+  | .list [.atom "m"] => some .moveOut
   | _ => none
 
 def stmt? : Sexp → Option Stmt
@@ -78,6 +79,7 @@ def errName : Err → String
   | .borrowShadowed => "BorrowShadowedError"
   | .unnamedExprNotUsed => "UnnamedExprNotUsedError"
   | .dropAfterCall => "DropAfterCallError"
+  | .moveOutOfSubscript => "MoveOutOfSubscriptError"
   | .usedThenLive false => "AlreadyUsedError"
   | .usedThenLive true => "AlreadyUsedError|BorrowSubPlaceUsedError"
   | .crash => "crash"
